@@ -1,5 +1,7 @@
 package spec
 
+import "strings"
+
 // The oracle view: what the documentation says the generated schema / converters look like for a
 // program and configuration, written from the README's rules (attribute naming, flattening of
 // embedded messages, exclusion keys), never from the generator's sources.
@@ -104,8 +106,8 @@ func (p *Program) fill(n *Node, m *Message, path string, via []Via, underEmbed b
 			e.Attr = cfg.NameOverrides[fpath]
 		case cfg.NameOverrides[tkey] != "":
 			e.Attr = cfg.NameOverrides[tkey]
-		case f.JSON != "":
-			e.Attr = f.JSON
+		case f.JSON != "" && strings.Split(f.JSON, ",")[0] != "-":
+			e.Attr = strings.Split(f.JSON, ",")[0]
 		default:
 			e.Attr = SnakeCase(f.Name)
 		}
